@@ -116,6 +116,14 @@ def run(res, tier, seed, wd, replay=None):
         res.sample({"kind": "TLC interleaving replayed", "steps": ["%s(t%d)" % (x["a"], x["t"]) for x in sm["steps"]], "results": sm["res"]})
         traces.append(trA)
         ntr += s["behaviours"]
+    # ---- A': random cooperative schedules over the shim points (independent of the shape Holder.tla models)
+    nsched = 400 if tier == "quick" else 8000
+    trR = os.path.join(wd, "trace-hsched.ndjson")
+    sr, _ = cvh(["holder-sched", "--seed", seed, "--runs", nsched, "--out", trR], timeout=3000)
+    log("[A'] %d random schedules over the shim points (%d scheduling steps, stuck=%d)" % (sr["runs"], sr["steps"], sr["stuck"]))
+    res.notes["random_schedules"] = sr["runs"]
+    traces.append(trR)
+    ntr += sr["runs"]
     # ---- B: free-running
     runs = 300 if tier == "quick" else 5000
     trB = os.path.join(wd, "trace-hstress.ndjson")
@@ -130,7 +138,8 @@ def run(res, tier, seed, wd, replay=None):
     for prop, rule, runline, line in v["bad"]:
         e = events[runline - 1]
         origin = {"how": "holder-replay", "behaviour": e.get("behaviour")} if "beh" in e else \
-                 {"how": "holder-stress", "args": ["--seed", seed, "--runs", runs], "run": e.get("run")}
+                 ({"how": "holder-sched", "args": ["--seed", seed, "--runs", nsched], "run": e.get("run")} if e.get("random_schedule") else
+                  {"how": "holder-stress", "args": ["--seed", seed, "--runs", runs], "run": e.get("run")})
         res.flag(prop, rule, {"run_line": runline, "line": line, "event": events[line - 1]},
                  {"engine": "holder", "origin": origin, "trace_excerpt": run_segment(events, runline, upto=line)[-60:]})
     res.cov["traces_validated_against_impl"] = ntr
@@ -163,7 +172,7 @@ def do_replay(res, path, wd):
         cvh(["holder-replay", "--in", b, "--out", tr])
         seg = read_ndjson(tr)
     else:
-        cvh(["holder-stress", "--out", tr] + [str(x) for x in o["args"]])
+        cvh([o["how"], "--out", tr] + [str(x) for x in o["args"]])
         ev = read_ndjson(tr)
         st = [i for i, e in enumerate(ev) if e["ev"] == "reset" and e.get("run") == o["run"]]
         seg = run_segment(ev, st[0] + 1)
